@@ -104,37 +104,51 @@ impl SampleQueueSender {
     /// it is mapped to a typed error by the single real caller.
     #[allow(clippy::result_unit_err)]
     pub fn send(&self, sample: MediaSample) -> Result<(), ()> {
+        #[cfg(rustrtc_verif)]
+        crate::verif::sched("src_closed");
         if self.closed.load(std::sync::atomic::Ordering::Acquire) {
             return Err(());
         }
 
         let sample = match self.queue.push(sample) {
             Ok(()) => {
+                #[cfg(rustrtc_verif)]
+                crate::verif::sched("src_notify");
                 self.notify.notify_one();
                 return Ok(());
             }
             Err(sample) => sample,
         };
 
+        #[cfg(rustrtc_verif)]
+        crate::verif::sched("src_trylock");
         let _guard = match self.pop_lock.try_lock() {
             Some(g) => g,
             None => return Ok(()),
         };
+        #[cfg(rustrtc_verif)]
+        let _verif_before_unlock = VerifSchedOnDrop("src_popunlock");
 
         let _ = self.queue.pop();
         if self.queue.push(sample).is_ok() {
+            #[cfg(rustrtc_verif)]
+            crate::verif::sched("src_notify");
             self.notify.notify_one();
         }
         Ok(())
     }
 
     pub fn try_send(&self, sample: MediaSample) -> Result<(), MediaSample> {
+        #[cfg(rustrtc_verif)]
+        crate::verif::sched("src_closed");
         if self.closed.load(std::sync::atomic::Ordering::Acquire) {
             return Err(sample);
         }
 
         match self.queue.push(sample) {
             Ok(()) => {
+                #[cfg(rustrtc_verif)]
+                crate::verif::sched("src_notify");
                 self.notify.notify_one();
                 Ok(())
             }
@@ -145,8 +159,12 @@ impl SampleQueueSender {
 
 impl Drop for SampleQueueSender {
     fn drop(&mut self) {
+        #[cfg(rustrtc_verif)]
+        crate::verif::sched("drop_close");
         self.closed
             .store(true, std::sync::atomic::Ordering::Release);
+        #[cfg(rustrtc_verif)]
+        crate::verif::sched("drop_notify");
         self.notify.notify_waiters();
     }
 }
@@ -155,17 +173,27 @@ impl SampleQueueReceiver {
     pub async fn recv(&mut self) -> Option<MediaSample> {
         loop {
             {
+                #[cfg(rustrtc_verif)]
+                crate::verif::sched("r_lock");
                 let _guard = self.pop_lock.lock();
+                #[cfg(rustrtc_verif)]
+                let _verif_before_unlock = VerifSchedOnDrop("r_unlock");
                 if let Some(sample) = self.queue.pop() {
                     return Some(sample);
                 }
+                #[cfg(rustrtc_verif)]
+                crate::verif::sched("r_closed");
                 if self.closed.load(std::sync::atomic::Ordering::Acquire) {
                     return None;
                 }
             }
 
+            #[cfg(rustrtc_verif)]
+            crate::verif::sched("r_create");
             let notified = self.notify.notified();
             if self.queue.is_empty() && !self.closed.load(std::sync::atomic::Ordering::Acquire) {
+                #[cfg(rustrtc_verif)]
+                crate::verif::sched("r_await");
                 notified.await;
             }
         }
@@ -174,9 +202,61 @@ impl SampleQueueReceiver {
 
 impl Drop for SampleQueueReceiver {
     fn drop(&mut self) {
+        #[cfg(rustrtc_verif)]
+        crate::verif::sched("rdrop_close");
         self.closed
             .store(true, std::sync::atomic::Ordering::Release);
+        #[cfg(rustrtc_verif)]
+        crate::verif::sched("rdrop_notify");
         self.notify.notify_waiters();
+    }
+}
+
+/// Verification hooks (compiled only with `--cfg rustrtc_verif`): a scheduling point in front of every
+/// shared-memory access of `SampleQueueSender::{send, try_send, drop}` and `SampleQueueReceiver::{recv, drop}`
+/// (same labels as the track queue in track.rs; `is_empty()` and the `closed` load after it are one step),
+/// and a read-only snapshot of the queue state.
+#[cfg(rustrtc_verif)]
+struct VerifSchedOnDrop(&'static str);
+
+#[cfg(rustrtc_verif)]
+impl Drop for VerifSchedOnDrop {
+    fn drop(&mut self) {
+        crate::verif::sched(self.0);
+    }
+}
+
+/// Handles on the queue state that stay readable after sender and receiver are gone.
+#[cfg(rustrtc_verif)]
+#[derive(Clone)]
+pub struct VerifChannelProbe {
+    queue: Arc<SpscRing<MediaSample>>,
+    pop_lock: Arc<parking_lot::Mutex<()>>,
+    closed: Arc<std::sync::atomic::AtomicBool>,
+}
+
+#[cfg(rustrtc_verif)]
+impl VerifChannelProbe {
+    /// (head, tail, closed, pop_locked)
+    pub fn snapshot(&self) -> (usize, usize, bool, bool) {
+        let (head, tail) = self.queue.verif_head_tail();
+        (
+            head,
+            tail,
+            self.closed.load(std::sync::atomic::Ordering::SeqCst),
+            self.pop_lock.is_locked(),
+        )
+    }
+}
+
+#[cfg(rustrtc_verif)]
+impl SampleQueueSender {
+    pub fn verif_probe(&self) -> VerifChannelProbe {
+        VerifChannelProbe {
+            queue: self.queue.clone(),
+            pop_lock: self.pop_lock.clone(),
+            closed: self.closed.clone(),
+        }
     }
 }
 
